@@ -24,7 +24,7 @@ PROPS = {
     },
     'C06': {
         'units': ['script_custom'],
-        'kani_quick': [],
+        'kani_quick': ['custom_read_uint_1', 'custom_read_uint_2', 'custom_read_uint_4', 'opcode_class_table', 'opcode_constants', 'types_coin_parameter_table'],
         'kani_thorough': [],
         'trusted': [
             'sha256d, hash160, base58::encode of rust-bitcoin / bitcoin_hashes: uninterpreted primitives (the proof fixes WHICH bytes are hashed / encoded)',
@@ -36,7 +36,7 @@ PROPS = {
     },
     'C07': {
         'units': ['utxo'],
-        'kani_quick': [],
+        'kani_quick': ['tx_outpoint_to_bytes_layout'],
         'kani_thorough': [],
         'trusted': [
             'std HashMap<Vec<u8>,V> insert/remove == Map insert/remove on the key bytes (prelude/hashmap.inc, assumed contract of std)',
@@ -89,8 +89,8 @@ PROPS = {
     },
     'C09': {
         'units': ['chain', 'driver'],
-        'kani_quick': [],
-        'kani_thorough': [],
+        'kani_quick': ['utils_merkle_root_1_to_3'],
+        'kani_thorough': ['utils_merkle_root_4_5'],
         'trusted': [
             'Block::compute_merkle_root == merkle_spec(txids in block order) -- iterator adapters, outside Verus; utils::merkle_root is checked by bounded Kani harnesses (lane K), never counted as proved',
             'SHA-256d collision resistance (soundness clause "any bit flip fails") is a cryptographic assumption, not a contract',
@@ -111,7 +111,7 @@ PROPS = {
     },
     'C05': {
         'units': ['script_btc'],
-        'kani_quick': [],
+        'kani_quick': ['btc_predicates_match_templates', 'btc_is_p2pk_matches_template', 'btc_from_script_decision', 'btc_is_provable_unspendable_first_byte', 'opcode_class_table'],
         'kani_thorough': [],
         'trusted': [
             'rust-bitcoin Script predicates == the byte templates of unit script_btc (is_op_return/p2pk/p2pkh/p2sh/p2wpkh/p2wsh/p2tr/is_witness_program, Address::from_script decision): validated against the real crate by Kani over all scripts up to the template length (lane K)',
@@ -132,7 +132,7 @@ PROPS = {
     },
     'C14': {
         'units': ['script_btc', 'script_custom', 'reader'],
-        'kani_quick': [],
+        'kani_quick': ['btc_is_provable_unspendable_first_byte', 'opcode_class_table', 'custom_read_uint_1', 'custom_read_uint_2', 'custom_read_uint_4'],
         'kani_thorough': [],
         'explanation': 'C14 reports the SAFETY obligations (arithmetic overflow, division by zero, slice index, unwrap/expect/unreachable/panic reachability) of every function on the script-evaluation and transaction-parsing path, plus the clauses tagged C14 (evaluation never yields ScriptPattern::Error; scriptSig/witness bytes are length-delimited and never interpreted).',
         'trusted': [
@@ -143,7 +143,7 @@ PROPS = {
     },
     'C01': {
         'units': ['reader'],
-        'kani_quick': [],
+        'kani_quick': ['varuint_read_from_all_prefixes', 'varuint_read_from_short_input', 'reader_header_roundtrip', 'reader_outpoint_roundtrip', 'utils_arr_to_hex_one_byte'],
         'kani_thorough': [],
         'trusted': [
             'PARTIAL: decode fidelity, witness stripping, hash pre-images, count == length are decided; the CSV TEXT (as_csv: format!/Display of integers and hashes, arr_to_hex fold) and CsvDump::on_block row emission are outside both verifiers -- UNCHECKED',
@@ -155,11 +155,20 @@ PROPS = {
     },
     'C12': {
         'units': ['reader'],
-        'kani_quick': [],
+        'kani_quick': ['types_coin_parameter_table'],
         'kani_thorough': [],
         'trusted': [
             'read_merkle_branch consumes count || hashes || mask (assumed in Verus; bounded Kani harness on the real code)',
             'per-coin aux_pow_activation_version table (namecoin 0x10101, dogecoin 0x620102, others None): lane K table check',
+        ],
+    },
+    'C15': {
+        'units': [],
+        'kani_quick': ['utils_get_mean_exact_len3', 'utils_get_mean_exact_len1_and_empty', 'block_base_reward_halving', 'tx_is_coinbase_predicate'],
+        'kani_thorough': [],
+        'trusted': [
+            'report rendering print_* (f64 formatting, format!) -- UNCHECKED',
+            'get_base_reward for heights >= 64*210000 = 13 440 000 overflows the shift: documented precondition (outside the property\'s "heights up to millions")',
         ],
     },
 }
